@@ -185,6 +185,9 @@ def get_bounding_box(particle_arrays, tight=False, stretch=0.05):
     zmin, zmax = 1e20, -1e20
     for pa in particle_arrays:
         x, y, z = pa.x, pa.y, pa.z
+        if len(x) == 0:
+            # an array without (real) particles does not stretch the box
+            continue
         xmin = min(xmin, x.min())
         xmax = max(xmax, x.max())
         ymin = min(ymin, y.min())
@@ -500,7 +503,9 @@ class Interpolator(object):
     def _get_max_h_in_arrays(self):
         hmax = -1.0
         for array in self.particle_arrays:
-            hmax = max(array.h.max(), hmax)
+            h = array.h
+            if len(h) > 0:
+                hmax = max(h.max(), hmax)
         return hmax
 
     def _set_particle_arrays(self, particle_arrays):
